@@ -10,6 +10,7 @@ import (
 	"context"
 	"fmt"
 	"io"
+	"math"
 	"os"
 	"regexp"
 	"runtime"
@@ -18,6 +19,7 @@ import (
 	"sync"
 	"time"
 
+	"github.com/mattn/go-runewidth"
 	"github.com/vbauerster/mpb/v8"
 	"github.com/vbauerster/mpb/v8/decor"
 )
@@ -89,11 +91,18 @@ func genScenario(r *rng, k int, tier string) *scenario {
 	if r.chance(1, 3) {
 		sc.mode = "manual"
 	}
+	tall := r.chance(1, 7) // non-terminal output: height = width; more rows than that get clipped
+	if tall {
+		sc.width = 20 + r.intn(8)
+	}
 	maxBars := 5
 	if tier == "thorough" {
 		maxBars = 12
 	}
 	n := 1 + r.intn(maxBars)
+	if tall {
+		n = 8 + r.intn(5)
+	}
 	switch r.intn(5) {
 	case 0:
 		sc.q = r.pickInt([]int{0, 1, 2})
@@ -114,14 +123,20 @@ func genScenario(r *rng, k int, tier string) *scenario {
 		}
 		if r.chance(1, 4) {
 			b.prio = r.intn(8) - 2
+			if r.chance(1, 6) {
+				b.prio = r.pickInt([]int{math.MaxInt64, math.MaxInt64 - 1, math.MaxInt32, 1 << 40})
+			}
 		}
 		b.rm = r.chance(1, 5)
 		b.noPop = sc.pop && r.chance(1, 4)
 		if i > 0 && r.chance(1, 5) {
 			b.after = r.intn(i)
 		}
-		if r.chance(1, 5) {
+		if r.chance(1, 5) || tall {
 			b.xrows = 1 + r.intn(2)
+			if tall {
+				b.xrows = 2
+			}
 			b.xrev = r.bool()
 		}
 		if r.chance(1, 3) {
@@ -132,15 +147,31 @@ func genScenario(r *rng, k int, tier string) *scenario {
 	added := 0
 	live := map[int]bool{}
 	terminalOp := map[int]bool{} // a terminal operation has been scripted for this bar
+	ticksSince := map[int]int{}  // refreshes scripted since the bar's first possibly terminal operation
 	hasSucc := map[int]bool{}
 	steps := 6 + r.intn(14)
 	delayEnded := !sc.delay
-	add := func(s string) { sc.steps = append(sc.steps, s) }
+	add := func(s string) {
+		sc.steps = append(sc.steps, s)
+		if s == "tick" {
+			for b := range terminalOp {
+				ticksSince[b]++
+			}
+		}
+	}
 	for s := 0; s < steps || added < n; s++ {
 		if added < n && (added == 0 || r.chance(1, 3)) {
 			// known finding (C17): a successor created after its predecessor was flushed, or a
 			// second successor, is never promoted; generated scenarios stay out of that region
-			if a := sc.bars[added].after; a >= 0 && (terminalOp[a] || hasSucc[a] || sc.bars[a].after >= 0 && false) {
+			// (in manual mode flush sees a bar's second terminal frame at the second refresh after
+			// its terminal operation, so a successor may still be created before that)
+			late := func(a int) bool {
+				if sc.mode == "manual" && ticksSince[a] < 2 {
+					return false
+				}
+				return terminalOp[a]
+			}
+			if a := sc.bars[added].after; a >= 0 && (late(a) || hasSucc[a]) {
 				sc.bars[added].after = -1
 			} else if a >= 0 {
 				hasSucc[a] = true
@@ -173,7 +204,16 @@ func genScenario(r *rng, k int, tier string) *scenario {
 			terminalOp[i] = true
 		case op < 16:
 			i := pick()
-			add(fmt.Sprintf("prio %d %d %d", i, r.intn(10)-3, b2i(r.chance(1, 2))))
+			pv := r.intn(10) - 3
+			if r.chance(1, 8) {
+				// (in pop mode user priorities stay above the pop priorities, which start at MinInt32)
+				if sc.pop {
+					pv = r.pickInt([]int{math.MaxInt64, math.MaxInt64 - 1, 1 << 40})
+				} else {
+					pv = r.pickInt([]int{math.MinInt64, math.MinInt64 + 1, math.MaxInt64, -(1 << 40)})
+				}
+			}
+			add(fmt.Sprintf("prio %d %d %d", i, pv, b2i(r.chance(1, 2))))
 		case op < 18:
 			add(fmt.Sprintf("write %d %d", r.intn(3), 1+r.intn(2)))
 		case op < 19:
@@ -281,7 +321,7 @@ func parseOut(p []byte) string {
 			}
 			head = strings.Replace(head, " ", "", -1) // padding of a width-synchronised marker
 			head = strings.Replace(head, "/", ":", 1)
-			fmt.Fprintf(&sb, " r:%s:w%d", head, len(ln))
+			fmt.Fprintf(&sb, " r:%s:w%d", head, runewidth.StringWidth(ln))
 		case strings.HasPrefix(ln, "x"):
 			fmt.Fprintf(&sb, " x:%s", strings.TrimSpace(strings.Replace(ln[1:], ".", ":", 1)))
 		case strings.HasPrefix(ln, "T"):
